@@ -1300,7 +1300,21 @@ fn nested_case(t: &mut Tape, mask: Mask) -> CaseResult {
             Ok(r) => r,
             Err(e) => {
                 let msg = e.downcast_ref::<String>().cloned().or_else(|| e.downcast_ref::<&str>().map(|s| s.to_string())).unwrap_or_default();
-                if sp.is_some() {
+                // a static segment of the route table itself (`"de-"`, a localized name, ...) that is a strict prefix of some
+                // path segment triggers the same upstream slicing without any help from the locale-prefix test; and on
+                // non-ASCII text the upstream slice offset is what panics. The panic is charged to the i18n router only
+                // when neither explanation applies.
+                let table_static_partial = c.table.routes.iter().any(|r| {
+                    r.iter().any(|s| {
+                        let lits: Vec<String> = match s {
+                            Seg::Static(x) => vec![x.clone()],
+                            Seg::Loc(k) => c.table.loc_names[*k].clone(),
+                            _ => vec![],
+                        };
+                        lits.iter().any(|l| !l.is_empty() && segs.iter().any(|seg| seg.len() > l.len() && seg.starts_with(l.as_str())))
+                    })
+                });
+                if sp.is_some() && path.is_ascii() && !table_static_partial {
                     return Err(Failure {
                         signature: "match-nested-partial-segment".into(),
                         detail: detail("match_nested panicked inside leptos_router after the locale prefix matched only a part of the first segment", json!({"panic": msg})),
